@@ -22,7 +22,15 @@
  * vacated slot; a later register that creates a kind there starts from the stale infos): such a
  * register is NOT executed (written as `regskip`) unless VERIF_C15_INCLUDE_STALE_SLOT_DEFECT=1.
  *
- * env: VERIF_C15_STRATEGY=<value of HWLOC_CPUKINDS_RANKING>  (default: variable unset)
+ * Ranking strategies (A7): HWLOC_CPUKINDS_RANKING is read by getenv() in every hwloc_internal_cpukinds_rank call, so the op
+ * `env <value>` (dflt = unset) really sets / unsets the variable for the later calls of the same process.  With
+ * VERIF_C15_ENVMIX=1 the value changes between and inside episodes, and ranking-focused episodes (profile 4,
+ * gen_rank_episode) build 2-5 kinds from a scenario of forced efficiencies (all known and distinct / ties / partially
+ * unknown / unknown) and CoreType / FrequencyMaxMHz / FrequencyBaseMHz pairs (absent / distinct / equal across kinds /
+ * absent in one kind / non-numeric or zero in one kind / beyond 2^20) and re-rank them under EVERY value (gen_sweep).
+ *
+ * env: VERIF_C15_STRATEGY=<value of HWLOC_CPUKINDS_RANKING at start>  (default: variable unset)
+ *      VERIF_C15_ENVMIX=1     see above
  *      VERIF_C15_PROFILE=<n>  force a generator profile
  *      VERIF_C15_IREG=1       side stream: about a third of the registrations go through the INTERNAL entry point
  *                             hwloc_internal_cpukinds_register (op `ireg`, flags 0 / OVERWRITE / invalid, no ranking
@@ -53,6 +61,15 @@ static unsigned long st_ops, st_reg, st_regskip, st_reg_einval, st_restrict_ok, 
   st_restrict_keeps_disallowed_kind_pu, st_restrict_einval_misses_allowed, st_restrict_removed_strict,
   st_dup_strict, st_xml_strict, st_obs_strict_with_kinds, st_by_disallowed_idx;
 static int DIS;   /* current topology was loaded with INCLUDE_DISALLOWED */
+/* ranking-strategy coverage (A7): values of HWLOC_CPUKINDS_RANKING switched between the calls of one process */
+static const char *envvals[] = { "dflt", "default", "no_forced_efficiency", "forced_efficiency", "coretype+frequency",
+                                 "coretype+frequency_strict", "coretype", "frequency", "frequency_max", "frequency_base",
+                                 "none", "bogus_value" };
+#define NENV 12
+static unsigned long st_env, st_env_switch, st_rank_episodes, st_sweep[NENV][2] /* [value][ranked?] after a sweep re-rank, nr >= 2 */,
+  st_rk_forced_distinct, st_rk_forced_ties, st_rk_forced_partial, st_rk_forced_none, st_rk_override, st_rk_restrict;
+static unsigned long st_rawset, st_rawswap, st_rawrank, st_raw_negative_forced;
+static int last_ranked = -1;   /* last observation: -1 fewer than two kinds, 0 all efficiencies -1, 1 ranked */
 
 /* allowed cpuset strictly inside the root cpuset? */
 static int strict_allowed(void) {
@@ -124,6 +141,7 @@ static void show_obs(void) {
   if (last) st_stale_seen++;
   fputc('\n', fout);
   if (nr >= 2) { if (ranked) st_ranked++; else st_unranked++; }
+  last_ranked = nr >= 2 ? ranked : -1;
   st_nr[nr > 5 ? 5 : nr]++;
 }
 
@@ -214,7 +232,12 @@ static void exec_line(const char *orig) {
   const char *op = tok[0];
   st_ops++;
   if (!strcmp(op, "env")) {
-    /* the environment is set once at start from VERIF_C15_STRATEGY; the line only informs the model */
+    /* HWLOC_CPUKINDS_RANKING is read by getenv() inside every hwloc_internal_cpukinds_rank call: the line sets the
+     * variable for all later calls of this process (`dflt` = unset), in generate and in replay mode.  The first line of
+     * every stream repeats the value main() took from VERIF_C15_STRATEGY. */
+    if (nt != 2) { fprintf(fops, "%s\n", eff); fprintf(fout, "bad-op\n"); return; }
+    if (strcmp(tok[1], "dflt")) setenv("HWLOC_CPUKINDS_RANKING", tok[1], 1); else unsetenv("HWLOC_CPUKINDS_RANKING");
+    st_env++;
     fprintf(fops, "%s\n", eff); fprintf(fout, "ok\n"); return;
   }
   if (!strcmp(op, "init") || !strcmp(op, "initd")) {
@@ -318,6 +341,30 @@ static void exec_line(const char *orig) {
   }
   fprintf(fops, "%s\n", eff);
   fflush(fops);
+  if (!strcmp(op, "rawset") || !strcmp(op, "rawswap") || !strcmp(op, "rawrank")) {
+    /* A7: arrays no history reaches.  rawset <idx> <forced> <eff> overwrites forced_efficiency / efficiency of one slot,
+     * rawswap <i> <j> exchanges two slots (private writes), rawrank calls hwloc_internal_cpukinds_rank directly. */
+    unsigned nr = T->nr_cpukinds;
+    int ok = 1;
+    if (!strcmp(op, "rawset")) {
+      if (nt < 4) { fprintf(fout, "bad-op\n"); return; }
+      unsigned idx = (unsigned) strtoul(tok[1], NULL, 10);
+      if (idx < nr) { T->cpukinds[idx].forced_efficiency = atoi(tok[2]); T->cpukinds[idx].efficiency = atoi(tok[3]); st_rawset++; }
+      else ok = 0;
+    } else if (!strcmp(op, "rawswap")) {
+      if (nt < 3) { fprintf(fout, "bad-op\n"); return; }
+      unsigned i = (unsigned) strtoul(tok[1], NULL, 10), j = (unsigned) strtoul(tok[2], NULL, 10);
+      if (i < nr && j < nr) {
+        struct hwloc_internal_cpukind_s tmp = T->cpukinds[i]; T->cpukinds[i] = T->cpukinds[j]; T->cpukinds[j] = tmp; st_rawswap++;
+      } else ok = 0;
+    } else {
+      hwloc_internal_cpukinds_rank(T);
+      st_rawrank++;
+    }
+    fprintf(fout, "rc=%s ", ok ? "ok" : "ENOENT");
+    show_obs();
+    return;
+  }
   if (!strcmp(op, "restrict")) {
     hwloc_bitmap_t s = parseset(tok[1]);
     int before = hwloc_cpukinds_get_nr(T, 0);
@@ -553,6 +600,140 @@ static void gen_queries(void) {
   }
 }
 
+static void gen_env(void) {
+  char line[64];
+  sprintf(line, "env %s", envvals[rng_below(NENV)]);
+  exec_line(line);
+  st_env_switch++;
+}
+
+static void shuffle(unsigned *a, unsigned n) {
+  for (unsigned i = n; i > 1; i--) { unsigned j = rng_below(i), t = a[i - 1]; a[i - 1] = a[j]; a[j] = t; }
+}
+
+/* re-rank the current kinds under every value of HWLOC_CPUKINDS_RANKING (random order): env <v>, then a call that ranks
+ * (refresh, XML round trip, dup + refresh) */
+static void gen_sweep(unsigned nvals) {
+  char line[64];
+  unsigned order[NENV];
+  for (unsigned i = 0; i < NENV; i++) order[i] = i;
+  shuffle(order, NENV);
+  for (unsigned i = 0; i < nvals && i < NENV; i++) {
+    sprintf(line, "env %s", envvals[order[i]]);
+    exec_line(line);
+    st_env_switch++;
+    unsigned c = rng_below(100);
+    if (c < 70) exec_line("refresh");
+    else if (c < 80) exec_line("xml");
+    else if (c < 90) exec_line("xmlv2");
+    else { exec_line("dup"); exec_line("refresh"); }
+    if (last_ranked >= 0) st_sweep[order[i]][last_ranked]++;
+    if (rng_chance(25)) gen_queries();
+  }
+}
+
+/* ranking-focused episode (profile 4): 2-5 kinds over disjoint PU sets whose forced efficiencies and CoreType /
+ * FrequencyMaxMHz / FrequencyBaseMHz pairs follow a scenario (all known and distinct, ties, partially unknown, unknown;
+ * absent, distinct, equal across kinds, absent in one kind, non-numeric / zero in one kind, values beyond 2^20 that
+ * collide with the core-type bits), registered in random order, then re-ranked under every strategy */
+static void gen_rank_episode(unsigned npu) {
+  char line[2048], tmp[160];
+  static const char *nonnum[] = { "abc", "12abc", "-5", "+7", "007", "4294967297", "0", "0x10", "1e3", "-0", "2147483648", "x9" };
+  static const unsigned bigf[] = { 1048576, 1049576, 2097152, 1500, 3000 };
+  static const int bigforced[] = { 0, 7, 1000000, 2147483647, 2147483646 };
+  unsigned nk = rng_chance(45) ? 2 : 3 + rng_below(3);
+  unsigned fmode = rng_below(7), ctmode = rng_below(6), mxmode = rng_below(7), bsmode = rng_below(7);
+  unsigned pf[5] = {0,1,2,3,4}, pm[5] = {0,1,2,3,4}, pb[5] = {0,1,2,3,4}, order[5] = {0,1,2,3,4};
+  unsigned oddf = rng_below(nk), oddc = rng_below(nk), oddm = rng_below(nk), oddb = rng_below(nk), ctoff = rng_below(2);
+  unsigned long masks[5] = {0,0,0,0,0};
+  shuffle(pf, 5); shuffle(pm, 5); shuffle(pb, 5); shuffle(order, nk);
+  st_rank_episodes++;
+  for (unsigned i = 0; i < npu; i++) masks[i < nk ? i : rng_below(nk)] |= 1UL << i;
+  if (fmode <= 1) st_rk_forced_distinct++; else if (fmode == 2 || fmode == 5) st_rk_forced_ties++;
+  else if (fmode == 3 || fmode == 6) st_rk_forced_partial++; else st_rk_forced_none++;
+  for (unsigned q = 0; q < nk; q++) {
+    unsigned j = order[q];
+    int forced;
+    switch (fmode) {
+    case 0: forced = (int) (10 * pf[j] + rng_below(3)); break;                                /* all known, distinct */
+    case 1: forced = bigforced[pf[j]]; break;                                                  /* distinct, up to INT_MAX */
+    case 2: forced = (int) (10 * pf[j == oddf ? (oddf + 1) % nk : j]); break;                  /* one tie */
+    case 3: forced = j == oddf ? (rng_chance(50) ? -1 : -7) : (int) (10 * pf[j]); break;       /* one unknown */
+    case 4: forced = -1; break;                                                                /* all unknown */
+    case 5: forced = 3; break;                                                                 /* all equal */
+    default: forced = rng_chance(50) ? -1 : (int) (10 * pf[j]); break;                         /* several unknown */
+    }
+    char parts[4][160]; unsigned np = 0;
+    if (ctmode && !(ctmode == 3 && j == oddc)) {
+      const char *v = ctmode == 2 ? ctvals[ctoff] : (ctmode == 4 && j == oddc) ? "Other" : (ctmode == 5 && j == oddc) ? "intelcore" : ctvals[(j + ctoff) % 2];
+      sprintf(parts[np++], " CoreType=%s", v);
+    }
+    if (mxmode && !(mxmode == 3 && j == oddm)) {
+      unsigned v = mxmode == 6 ? bigf[pm[j]] : 1000 + 500 * pm[(mxmode == 2 && j == oddm) ? (oddm + 1) % nk : j];
+      if (mxmode == 4 && j == oddm) sprintf(parts[np++], " FrequencyMaxMHz=%s", nonnum[rng_below(12)]);
+      else if (mxmode == 5 && j == oddm) sprintf(parts[np++], " FrequencyMaxMHz=0");
+      else sprintf(parts[np++], " FrequencyMaxMHz=%u", v);
+    }
+    if (bsmode && !(bsmode == 3 && j == oddb)) {
+      unsigned v = bsmode == 6 ? bigf[pb[j]] : 800 + 300 * pb[(bsmode == 2 && j == oddb) ? (oddb + 1) % nk : j];
+      if (bsmode == 4 && j == oddb) sprintf(parts[np++], " FrequencyBaseMHz=%s", nonnum[rng_below(12)]);
+      else if (bsmode == 5 && j == oddb) sprintf(parts[np++], " FrequencyBaseMHz=0");
+      else sprintf(parts[np++], " FrequencyBaseMHz=%u", v);
+    }
+    if (rng_chance(30)) sprintf(parts[np++], " Foo=%s", misc[rng_below(3)]);
+    unsigned po[4] = {0,1,2,3};
+    shuffle(po, np);
+    sprintf(line, "reg %lx %d 0", masks[j], forced);
+    for (unsigned i = 0; i < np; i++) strcat(line, parts[po[i]]);
+    exec_line(line);
+    if (rng_chance(30)) gen_queries();
+  }
+  /* a later registration of a whole kind adds a second pair of the same name (the last one counts for the ranking) and
+   * overwrites the forced efficiency */
+  if (rng_chance(35)) {
+    unsigned j = rng_below(nk);
+    static const char *names[] = { "FrequencyMaxMHz", "FrequencyBaseMHz", "CoreType" };
+    unsigned w = rng_below(3);
+    if (w == 2) sprintf(tmp, " CoreType=%s", ctvals[rng_below(5)]);
+    else if (rng_chance(25)) sprintf(tmp, " %s=%s", names[w], nonnum[rng_below(12)]);
+    else sprintf(tmp, " %s=%u", names[w], 700 + 100 * rng_below(40));
+    sprintf(line, "reg %lx %d 0%s", masks[j], rng_chance(50) ? (int) rng_below(50) : -1, tmp);
+    exec_line(line);
+    st_rk_override++;
+  }
+  /* leave the reachable states: permute the array, plant forced efficiencies no public call stores (negative other than
+   * -1: ranked by their uint64_t cast) and stale efficiencies, rank directly */
+  if (rng_chance(35)) {
+    /* negative values stay above -1000000000: hwloc__xml_export_cpukinds prints into char tmp[11] and truncates 11-character
+     * values (latent, unreachable through the public API; corpus/cpukinds.findings/xml-export-forced-below-minus-1e9.txt) */
+    static const int rawf[] = { -7, -999999999, -2, 5, 2147483647, -1, 0, 12, 1 };
+    static const int rawe[] = { -1, 0, 3, 99, -5 };
+    unsigned n = 1 + rng_below(4);
+    for (unsigned i = 0; i < n; i++) {
+      int nr = hwloc_cpukinds_get_nr(T, 0);
+      if (rng_chance(40)) sprintf(line, "rawswap %u %u", rng_below(nr + 1), rng_below(nr + 1));
+      else {
+        int f = rawf[rng_below(9)];
+        if (f < -1) st_raw_negative_forced++;
+        sprintf(line, "rawset %u %d %d", rng_below(nr + 1), f, rawe[rng_below(5)]);
+      }
+      exec_line(line);
+    }
+    if (rng_chance(50)) exec_line("rawrank");
+  }
+  gen_sweep(NENV);
+  if (rng_chance(50)) {           /* drop one kind (re-ranked by restrict under the value in force), then a short sweep */
+    int nr = hwloc_cpukinds_get_nr(T, 0);
+    if (nr >= 2) {
+      sprintf(line, "restrict %lx", rootmask() & ~kindset(rng_below(nr)));
+      exec_line(line);
+      st_rk_restrict++;
+      gen_queries();
+      gen_sweep(4);
+    }
+  }
+}
+
 static void generate(unsigned long nops) {
   char line[2048], set[80], infos[512];
   static const unsigned npus[] = { 8, 12, 12, 16 };
@@ -561,11 +742,14 @@ static void generate(unsigned long nops) {
   int ireg = getenv("VERIF_C15_IREG") && atoi(getenv("VERIF_C15_IREG"));
   const char *pd = getenv("VERIF_C15_DISALLOWED");    /* force (1) / forbid (0) INCLUDE_DISALLOWED episodes; default: half */
   include_split_forced = getenv("VERIF_C15_INCLUDE_SPLIT_FORCED") && atoi(getenv("VERIF_C15_INCLUDE_SPLIT_FORCED"));
+  /* VERIF_C15_ENVMIX=1: the value of HWLOC_CPUKINDS_RANKING changes between episodes and between the calls of an episode,
+   * and a quarter of the episodes are ranking-focused (profile 4) */
+  int envmix = getenv("VERIF_C15_ENVMIX") && atoi(getenv("VERIF_C15_ENVMIX"));
   sprintf(line, "env %s", strat ? strat : "dflt");
   exec_line(line);
   while (st_ops < nops) {
     unsigned npu = npus[rng_below(4)];
-    int profile = pf ? atoi(pf) : (int) (1 + rng_below(3));
+    int profile = pf ? atoi(pf) : (int) (1 + rng_below(envmix ? 4 : 3));
     unsigned universe = rng_chance(70) ? npu : 16;       /* registering PUs the topology does not have */
     if (universe < npu) universe = npu;
     unsigned len = 8 + rng_below(40);
@@ -573,9 +757,12 @@ static void generate(unsigned long nops) {
     int dis = pd ? atoi(pd) : (int) rng_chance(50);
     sprintf(line, "%s %lx", dis ? "initd" : "init", (1UL << npu) - 1);
     exec_line(line);
+    if (envmix && rng_chance(70)) gen_env();
     /* disallow some PUs before anything is registered (most INCLUDE_DISALLOWED episodes) */
     if (dis && rng_chance(85)) gen_allow();
+    if (profile == 4) { gen_rank_episode(npu); profile = (int) (1 + rng_below(3)); len = rng_below(12); }
     for (unsigned k = 0; k < len; k++) {
+      if (envmix && rng_chance(5)) { gen_env(); continue; }
       /* hwloc_topology_allow between the other calls: the kinds must not move */
       if (rng_chance(dis ? 9 : 1)) { gen_allow(); gen_queries(); continue; }
       unsigned c = rng_below(100);
@@ -672,6 +859,12 @@ int main(int argc, char **argv) {
     S(restrict_keeps_disallowed_kind_pu); S(restrict_einval_misses_allowed); S(restrict_removed_strict);
     S(dup_strict); S(xml_strict); S(obs_strict_with_kinds); S(by_disallowed_idx);
     for (int i = 0; i < 6; i++) fprintf(fs, "nr_%d%s %lu\n", i, i == 5 ? "plus" : "", st_nr[i]);
+    S(env); S(env_switch); S(rank_episodes); S(rk_forced_distinct); S(rk_forced_ties); S(rk_forced_partial); S(rk_forced_none);
+    S(rk_override); S(rk_restrict); S(rawset); S(rawswap); S(rawrank); S(raw_negative_forced);
+    for (int i = 0; i < NENV; i++) {
+      fprintf(fs, "sweep_%s_ranked %lu\n", envvals[i], st_sweep[i][1]);
+      fprintf(fs, "sweep_%s_unranked %lu\n", envvals[i], st_sweep[i][0]);
+    }
     fclose(fs);
   }
   return 0;
